@@ -168,6 +168,8 @@ class Scipy(AbstractIntegrator):
                         values=np.array([y2], dtype=float),
                     )
                 )
-            y1 = y2
+            # scipy's `ode.integrate` may hand out the same array object on every
+            # call, so keep a copy; otherwise the next difference is identically zero
+            y1 = copy.deepcopy(y2)
             t += step_size
         return Result(NoSteadyState())
